@@ -1861,6 +1861,33 @@ func scanParamMut(c *core.Ctx) []ob {
 							}
 						}
 						al[o] = keep
+						// and for the locals those definitions are views of (`for _, c := range mod1Poly.Coeffs`: which
+						// mod1Poly — the clone or the shared one — is decided where the view is taken), two levels deep
+						frontier := keep
+						for depth := 0; depth < 2; depth++ {
+							var next []ast.Expr
+							for _, e := range frontier {
+								r2 := rootIdent(e)
+								if r2 == nil {
+									continue
+								}
+								o2 := info.Uses[r2]
+								if o2 == nil || o2 == types.Object(recv) || o2 == o || len(aliases[o2]) == 0 {
+									continue
+								}
+								if rhs2, _, ok2 := rd.defsAt(r2, o2); ok2 {
+									var keep2 []ast.Expr
+									for _, e2 := range rhs2 {
+										if e2 != nil {
+											keep2 = append(keep2, e2)
+										}
+									}
+									al[o2] = keep2
+									next = append(next, keep2...)
+								}
+							}
+							frontier = next
+						}
 					}
 				}
 			}
